@@ -2,10 +2,13 @@
 #[allow(unexpected_cfgs)]
 mod bridge;
 mod c_addr;
+mod c_conn;
 mod c_frame;
+mod env;
 mod c_match;
 mod c_msg;
 mod c_names;
+mod c_sasl;
 mod c_serial;
 mod c_xml;
 mod sched;
@@ -59,6 +62,29 @@ fn main() {
             run.assumptions.push("thread interleaving is left to the OS scheduler: exploration, not enumeration of schedules".into());
             vec![Spec { threads: 1, ..spec("serials", 500, 30000, 16, c_serial::c15_case) }]
         }
+        "C16" => {
+            run.rule = "server handshake through Builder::socket(..).server(guid).p2p() over a scripted socket: exhaustively every client transcript of up to 3 (quick) / 4 (thorough) lines over 23 alternatives (AUTH with no / right / wrong / unknown mechanism and matching, mismatching, non-numeric, non-UTF-8, malformed identities, DATA variants, BEGIN, CANCEL, ERROR, NEGOTIATE_UNIX_FD, unknown, empty) x 8 configurations (mechanism x peer credentials known/unknown x fd-capable), plus random transcripts up to 12 lines with arbitrary read splits, stray line endings, missing leading NUL and junk bytes; oracle: the reply command words and the completion must be a path of the reference server automaton (completion only by BEGIN after a successful AUTH in the configured mechanism; REJECTED / ERROR as the statement says; BEGIN before authentication may be answered by ERROR or by giving up); no panic, no hang; non-trivial = transcript with an AUTH and at least 3 lines".into();
+            run.exhaustive = Some(true);
+            vec![custom("server-enum", c_sasl::c16_enum_case), spec("server-random", 60_000, 2_000_000, 160, c_sasl::c16_random_case)]
+        }
+        "C17" => {
+            run.rule = "client handshake through Builder::socket(..).p2p() against scripted server replies: OK with valid / 31 / 33 / non-hex / hyphenated GUID or none, REJECTED, ERROR, DATA, AGREE_UNIX_FD, unknown, empty; fd-capable or not; 0..2 messages right behind the handshake lines; arbitrary read splits; oracle: success iff the first reply is OK <32 hex> and the NEGOTIATE_UNIX_FD answer is AGREE_UNIX_FD or ERROR, fd passing usable iff AGREE_UNIX_FD was seen (observed by sending a message with an fd), the trailing bytes come out of the message stream first and byte-identical; no panic, no hang; non-trivial = at least 2 reply lines and more than one chunk".into();
+            run.assumptions.push("the expected-GUID route (address with guid=...) needs a real listening socket and is not exercised; the GUID comparison itself is covered by C10/C23".into());
+            vec![spec("client", 30_000, 1_000_000, 300, c_sasl::c17_case)]
+        }
+        "C18" => {
+            run.rule = "1..8 sender tasks x 1..6 messages (payloads 0..600 bytes, some with an fd) on one p2p connection over a scripted socket whose write side follows a generated plan of partial writes (1..64 bytes), yields and whole writes; tasks and the connection executor are polled in a generated order (harness-owned scheduler, no threads); oracle: the captured byte stream splits into exactly the sent messages, byte-identical, each sender's messages in its order, each message's fds on the sendmsg that carried its first byte and none elsewhere; non-trivial = at least 2 senders and a partial write; distinct by hash(sizes, steps, schedule prefix)".into();
+            vec![spec("sends", 20_000, 600_000, 700, c_conn::c18_case)]
+        }
+        "C19" => {
+            run.rule = "1..12 concurrent call_method callers on a p2p connection; the fake peer answers each call after a generated delay with a return (carrying the call's own id), an error reply, or never, latest-due first (so replies are permuted), interleaving unrelated signals and stray replies with unknown serials; when everything answerable is settled the transport ends with EOF or an I/O error; harness-owned scheduler; oracle: every caller completes exactly once, returns carry the caller's id, error replies become MethodError with the peer's error name, never-answered calls complete with an error when the transport fails, all call serials distinct; hang = nothing runnable while a call is pending; non-trivial = at least 3 calls and a permuted batch of replies".into();
+            run.assumptions.push("the method_timeout path needs the async-io timer (real time) and is not driven by the harness scheduler; it is not exercised here".into());
+            vec![spec("calls", 20_000, 600_000, 500, c_conn::c19_case)]
+        }
+        "C20" => {
+            run.rule = "histories of {create stream for one of 4 rules (incl. the rule-less stream), clone, drop, incoming signal of one of 4 kinds, poll} on a p2p connection with max_queued 1..3, harness-owned scheduler; oracle = model queues: each stream receives exactly the messages matching its rule that arrived while it existed, once, in arrival order (a clone continues from the original's position); streams sharing a rule keep receiving after one of them is dropped; non-trivial = a drop between two incoming messages; distinct by hash(history)".into();
+            vec![spec("streams", 15_000, 400_000, 400, c_conn::c20_case)]
+        }
         "C14" => {
             run.rule = "1..5 valid reference-built messages (some carrying fds) concatenated into a stream, delivered to ReadHalf::receive_message through a scripted socket with generated chunking (single chunk, 1-byte drip, message boundaries, random cuts incl. inside a header; an fd-carrying message start is always a chunk start as on a real unix socket) and a generated handshake-leftover prefix (bytes and fds already read); oracle: the same messages, byte-identical, in order, each with its own fds (by inode), strictly increasing receive positions, then end-of-stream; plus headers announcing more than 128 MiB must fail without a body-sized read; non-trivial = at least 2 messages and a cut inside a message or an fd-carrying message; distinct by hash(stream, prefix, chunking)".into();
             vec![spec("frame", 100_000, 3_000_000, 600, c_frame::c14_case), spec("oversized", 5_000, 100_000, 200, c_frame::c14_big_case)]
@@ -82,6 +108,43 @@ fn main() {
             let lim = c_names::limit_cases();
             run.enumerate("names", lim.len() as u64, &|i| lim[i as usize].clone(), f);
             run.extra.insert("enumerated".into(), serde_json::json!({"max_symbols": l, "strings_per_type": per_kind, "types": c_names::KINDS.len(), "limit_and_uuid_cases": lim.len()}));
+            if run.truncated {
+                run.exhaustive = Some(false);
+            }
+        }
+        "C16" => {
+            let f = &*specs[0].f;
+            let nalts = c_sasl::alts().len() as u64;
+            let ncfg = c_sasl::configs().len() as u64;
+            let maxl = run.pick(3u32, 4u32);
+            let mut total = 0u64;
+            for l in 1..=maxl {
+                total += nalts.pow(l) * ncfg;
+            }
+            run.enumerate(
+                "server-enum",
+                total,
+                &|mut i| {
+                    let mut l = 1u32;
+                    loop {
+                        let n = nalts.pow(l) * ncfg;
+                        if i < n {
+                            break;
+                        }
+                        i -= n;
+                        l += 1;
+                    }
+                    let mut b = vec![(i % ncfg) as u8];
+                    i /= ncfg;
+                    for _ in 0..l {
+                        b.push((i % nalts) as u8);
+                        i /= nalts;
+                    }
+                    b
+                },
+                f,
+            );
+            run.extra.insert("enumerated".into(), serde_json::json!({"max_lines": maxl, "alternatives": nalts, "configurations": ncfg, "transcripts": total}));
             if run.truncated {
                 run.exhaustive = Some(false);
             }
